@@ -1,0 +1,137 @@
+//go:build verif
+
+package database
+
+import (
+	"sort"
+
+	"github.com/Vedant9500/WTF/internal/embedding"
+	"github.com/Vedant9500/WTF/internal/nlp"
+)
+
+// Read-only accessors (and one setter, VerifSetEmbeddingIndex) used by the /verif
+// correspondence harness. Not built without -tags verif.
+
+// VerifTokenize exposes the index/query tokenizer.
+func VerifTokenize(s string) []string { return normalizeAndTokenize(s) }
+
+// VerifIDF exposes the BM25 idf (math.Log oracle for the Coq model).
+func VerifIDF(n, df int) float64 { return bm25IDF(n, df) }
+
+// VerifParams returns k1, per-field b and w (cmd, desc, keys, tags) and minIDF in force.
+func VerifParams() (k1 float64, b, w [4]float64, minIDF float64) {
+	p := defaultParams()
+	return p.k1, [4]float64{p.b.cmd, p.b.desc, p.b.keys, p.b.tags}, [4]float64{p.w.cmd, p.w.desc, p.w.keys, p.w.tags}, p.minIDF
+}
+
+// VerifPosting is one posting of the inverted index.
+type VerifPosting struct {
+	Doc int
+	TF  [4]int
+}
+
+// VerifIndexDump is a copy of the inverted index.
+type VerifIndexDump struct {
+	Built    bool
+	N        int
+	Terms    []string // sorted
+	DF       []int
+	Postings [][]VerifPosting
+	DocLens  [][4]int
+	AvgLen   [4]float64
+}
+
+// VerifIndex dumps the inverted index as currently held (no rebuild).
+func (db *Database) VerifIndex() VerifIndexDump {
+	var d VerifIndexDump
+	idx := db.uIndex
+	if idx == nil {
+		return d
+	}
+	d.Built = true
+	d.N = idx.N
+	for t := range idx.df {
+		d.Terms = append(d.Terms, t)
+	}
+	sort.Strings(d.Terms)
+	for _, t := range d.Terms {
+		d.DF = append(d.DF, idx.df[t])
+		var ps []VerifPosting
+		for _, p := range idx.postings[t] {
+			ps = append(ps, VerifPosting{Doc: p.docID, TF: [4]int{p.tf.cmd, p.tf.desc, p.tf.keys, p.tf.tags}})
+		}
+		d.Postings = append(d.Postings, ps)
+	}
+	for _, l := range idx.docLens {
+		d.DocLens = append(d.DocLens, [4]int{l.cmd, l.desc, l.keys, l.tags})
+	}
+	d.AvgLen = [4]float64{idx.avgLen.cmd, idx.avgLen.desc, idx.avgLen.keys, idx.avgLen.tags}
+	return d
+}
+
+// VerifSelectTopTerms exposes selectTopTerms.
+func (db *Database) VerifSelectTopTerms(terms []string, maxTerms int) []string {
+	return db.selectTopTerms(terms, maxTerms)
+}
+
+// VerifEnhance exposes enhanceQueryWithNLP.
+func (db *Database) VerifEnhance(query string, terms []string) (*nlp.ProcessedQuery, []string) {
+	return db.enhanceQueryWithNLP(query, terms)
+}
+
+// VerifFuzzy exposes the typo-fallback search.
+func (db *Database) VerifFuzzy(query string, options SearchOptions) []SearchResult {
+	return db.performFuzzySearch(query, options)
+}
+
+// VerifIndexOf returns the position of a result's command in db.Commands (-1 if it is not one of them).
+func (db *Database) VerifIndexOf(c *Command) int {
+	for i := range db.Commands {
+		if &db.Commands[i] == c {
+			return i
+		}
+	}
+	return -1
+}
+
+// VerifPlatformCompatible, VerifCrossPlatformTool, VerifIsPipeline, VerifCurrentPlatform expose the filter predicates.
+func VerifPlatformCompatible(platforms []string, current string) bool {
+	return isPlatformCompatible(platforms, current)
+}
+func VerifCrossPlatformTool(command string) bool { return isCrossPlatformTool(command) }
+func VerifIsPipeline(c *Command) bool            { return isPipelineCommand(c) }
+func VerifCurrentPlatform() string               { return getCurrentPlatform() }
+
+// VerifCrossPlatformTools returns the recognised cross-platform tool names, sorted.
+func VerifCrossPlatformTools() []string {
+	out := make([]string, 0, len(crossPlatformTools))
+	for t := range crossPlatformTools {
+		out = append(out, t)
+	}
+	sort.Strings(out)
+	return out
+}
+
+// VerifIntentBoost, VerifCooccur, VerifCascadeBoost expose the per-document NLP multipliers.
+func (db *Database) VerifIntentBoost(i int, pq *nlp.ProcessedQuery) float64 {
+	return calculateIntentBoost(&db.Commands[i], pq)
+}
+func (db *Database) VerifCooccur(i int, pq *nlp.ProcessedQuery) bool {
+	cmd := &db.Commands[i]
+	docText := cmd.CommandLower + " " + cmd.DescriptionLower
+	return containsAnyLocal(docText, pq.Actions) && containsAnyLocal(docText, pq.Targets)
+}
+func (db *Database) VerifCascadeBoost(i int, pq *nlp.ProcessedQuery) float64 {
+	return db.calculateBoostForCommand(&db.Commands[i], db.buildBoostContext(pq))
+}
+
+// VerifTFIDFSearch exposes the TF-IDF searcher as currently held (nil searcher: ok=false).
+func (db *Database) VerifTFIDFSearch(query string, limit int) (res []nlp.TFIDFResult, ok bool) {
+	if db.tfidf == nil {
+		return nil, false
+	}
+	return db.tfidf.Search(query, limit), true
+}
+
+// VerifSetEmbeddingIndex attaches an in-memory embedding index.
+func (db *Database) VerifSetEmbeddingIndex(idx *embedding.Index) { db.embeddingIndex = idx }
